@@ -466,7 +466,7 @@ NLW2_SOLReadResultCode SOLReader2<SOLHandler>::bsufread(FILE* f) {
       return NLW2_SOLRead_Bad_Suffix;
     if (fread(&SR.h, sizeof(SufHead), 1, f) != 1)
       return ReportEarlyEof();
-    SR.tablines = SR.h.tablen - 1;
+    SR.tablines = SR.h.tablen > 0 ? SR.h.tablen - 1 : 0;
     if (strncmp(SR.h.sufid, "\nSuffix\n", 8)
         || sufheadcheck(&SR))
       return NLW2_SOLRead_Bad_Suffix;
@@ -603,7 +603,7 @@ int SOLReader2<SOLHandler>::sufheadcheck(SufRead* sr) {
     return 1;
   i = (int)sr->h.kind & 3;
   if (sr->h.tablen
-   && (sr->tablines > sr->h.tablen + 1 || sr->tablines < 1))
+   && (sr->tablines - 1 > sr->h.tablen || sr->tablines < 1))
     return 1;
   try {                           // tablen comes from the file, too
     sr->xp.resize((size_t)sr->h.tablen + 2*(size_t)sr->h.namelen + 6);
